@@ -12,6 +12,7 @@ import (
 	"time"
 
 	"github.com/ovn-org/libovsdb/client"
+	"github.com/ovn-org/libovsdb/model"
 	"github.com/ovn-org/libovsdb/ovsdb"
 	"pgregory.net/rapid"
 
@@ -20,10 +21,13 @@ import (
 
 // monSpec is one generated monitor of a monitoring client.
 type monSpec struct {
-	Method  string              `json:"method"`
-	Tables  map[string][]string `json:"tables"` // table -> monitored columns (nil = all)
-	At      int                 `json:"establishedAt"`
-	Window  bool                `json:"notificationInsideWindow"`
+	Method string              `json:"method"`
+	Tables map[string][]string `json:"tables"` // table -> monitored columns (nil = all)
+	// table -> column: the table is monitored through WithConditionalTable with the two
+	// conditions column == <zero value> and column != <zero value> (every row satisfies one)
+	Where   map[string]string `json:"where,omitempty"`
+	At      int               `json:"establishedAt"`
+	Window  bool              `json:"notificationInsideWindow"`
 	started bool
 }
 
@@ -91,6 +95,23 @@ func genMonitors(t *rapid.T, s kit.Schema, histLen int) []monSpec {
 			}
 			ms.Tables[tn] = cols
 		}
+		for _, tn := range mine {
+			if rapid.IntRange(0, 3).Draw(t, "conditional") != 0 {
+				continue
+			}
+			var cands []string
+			for _, c := range s.Table(tn).Cols {
+				if c.Shape() == kit.ShScalar && len(c.Key.Enum) == 0 && (c.Key.T == kit.TInt || c.Key.T == kit.TStr || c.Key.T == kit.TBool) {
+					cands = append(cands, c.Name)
+				}
+			}
+			if len(cands) > 0 {
+				if ms.Where == nil {
+					ms.Where = map[string]string{}
+				}
+				ms.Where[tn] = rapid.SampledFrom(cands).Draw(t, "wherecol")
+			}
+		}
 		out = append(out, ms)
 	}
 	return out
@@ -108,6 +129,16 @@ func buildMonitor(w *kit.World, c client.Client, ms monSpec) *client.Monitor {
 		var fields []interface{}
 		for _, col := range ms.Tables[tn] {
 			fields = append(fields, fieldPtrByColumn(w, tn, m, col))
+		}
+		if col, ok := ms.Where[tn]; ok {
+			ptr := fieldPtrByColumn(w, tn, m, col)
+			zero := reflect.Zero(reflect.TypeOf(ptr).Elem()).Interface()
+			opts = append(opts, client.WithConditionalTable(m, []model.Condition{
+				{Field: ptr, Function: ovsdb.ConditionEqual, Value: zero},
+				{Field: ptr, Function: ovsdb.ConditionNotEqual, Value: zero},
+			}, fields...))
+			kit.Label("C01", "monitor:conditional-table")
+			continue
 		}
 		opts = append(opts, client.WithTable(m, fields...))
 	}
